@@ -384,9 +384,50 @@ static std::string result_sig(GMGPolar& g)
              e1 ? hex(*e1).c_str() : "-", e2 ? hex(*e2).c_str() : "-");
     return buf;
 }
+// directed corpus (runs first): solve() called repeatedly on one object WITHOUT a setup() in between, for every extrapolation mode with
+// and without FMG — the histories in which per-solve state (smoother switch, residual history, start-up flags) can leak
+static void reuse_corpus()
+{
+    struct D { int extrap, fmg, geom, strat; };
+    std::vector<D> ds;
+    for (int geom = 0; geom < 3; geom++) for (int strat = 0; strat < 2; strat++) ds.push_back({3, 1, geom, strat});
+    for (int extrap = 0; extrap < 3; extrap++) for (int fmg = 0; fmg < 2; fmg++) ds.push_back({extrap, fmg, 1, 1});
+    ds.push_back({3, 0, 1, 1});
+    int c = 0;
+    for (const D& d : ds) {
+        Rng rng(12345 + c);
+        Opts o = base_opts(rng, 4);
+        o.set("geometry", d.geom);
+        if (d.geom == 2) { o.set("kappa_eps", 0.3); o.set("delta_e", 1.4); } else { o.set("kappa_eps", 0.3); o.set("delta_e", 0.2); }
+        o.set("problem", 0); o.set("alpha_coeff", 1); o.set("beta_coeff", 1); o.set("DirBC_Interior", c % 2);
+        o.set("stencilDistributionMethod", d.strat);
+        o.set("extrapolation", d.extrap); o.set("FMG", d.fmg); o.set("FMG_iterations", 2); o.set("FMG_cycle", 0);
+        o.set("multigridCycle", 0); o.set("preSmoothingSteps", 1); o.set("postSmoothingSteps", 1); o.set("maxLevels", -1);
+        o.set("residualNormType", 0); o.set("maxIterations", 150); o.set("absoluteTolerance", 1e-10); o.set("relativeTolerance", 1e-10);
+        o.set("maxOpenMPThreads", 1);
+        GMGPolar reused;
+        o.apply(reused);
+        reused.setup();
+        std::string hist = "setup,";
+        for (int step = 0; step < 3; step++) {
+            reused.solve();
+            hist += "solve,";
+            GMGPolar fresh;
+            o.apply(fresh);
+            fresh.setup();
+            fresh.solve();
+            std::string a = result_sig(reused), b = result_sig(fresh);
+            printf("REU case=corpus%d step=%d hist=%s extrap=%s fmg=%s same=%d reused=[%s] fresh=[%s] opts=[%s]\n", c, step, hist.c_str(), o.kv["extrapolation"].c_str(), o.kv["FMG"].c_str(),
+                   (int)(a == b), a.c_str(), b.c_str(), o.str().c_str());
+        }
+        c++;
+    }
+}
+
 static int mode_reuse(int cases)
 {
     Rng rng(seed_from_env());
+    reuse_corpus();
     for (int c = 0; c < cases; c++) {
         int len = rng.range(2, 4);
         GMGPolar reused;
